@@ -165,19 +165,17 @@ theorem makeSecopError_rebuilt {t : Tables} (ht : TablesOk t) (cls : Option Str)
     · rename_i n hn
       split
       · rename_i hnn
+        obtain ⟨hne, hnn⟩ := hnn
         obtain ⟨hw, htext⟩ := matchFrappyError_some hm
         refine ⟨by rw [canonName_eq]; exact hnn, hn, ?_⟩
         unfold formatErr
         simp only
-        by_cases hc : dictGet t.name2class n = some clsname
-        · simp only [hc, if_true]
-          rcases htext with h | h
-          · right; right; left; rw [← hw]; exact h
-          · right; right; right; rw [← hw]; exact h
-        · simp only [hc, if_false]
-          rcases htext with h | h
-          · left; exact h.symm
-          · right; left; rw [h]
+        have hc : ¬ dictGet t.name2class n = some clsname := by
+          rw [hnn, hok.2]; intro h; exact hne (Option.some.inj h).symm
+        simp only [hc, if_false]
+        rcases htext with h | h
+        · left; exact h.symm
+        · right; rw [h]
       · exact hplain
     · exact hplain
   · exact hplain
